@@ -241,12 +241,67 @@ def run(facts):
         check_vd_vectored(res, facts, find(facts, vd + "chunks_vectored"), slices)
         check_cursor(res, facts, single)
         check_default_vectored(res, facts)
+    check_leaf_overrides(res, facts)
     check_helpers(res, facts, has_std)
     check_defaults(res, facts, single)
     check_copy_defaults(res, facts)
     check_iter(res, facts)
     res.floor("leaf_instances", len(res.instances), 18 if has_std else 13)
     return res
+
+
+BUF = "buf::buf_impl::Buf"
+LEAF_KNOWN = ("remaining", "chunk", "advance", "chunks_vectored", "copy_to_bytes", "has_remaining")
+
+
+def check_leaf_overrides(res, facts):
+    """A leaf Buf that overrides a *copying* provided method (copy_to_slice, try_copy_to_slice, ...) with its own code must still hand
+    out the next bytes of its sequence: every slice it copies from is a *prefix* of one of its sequence pieces (its chunk / deref
+    slice, the two halves of VecDeque::as_slices) - `piece[..k]`, `piece.get(..k)` or the whole piece - or the copy is delegated to a
+    std routine documented to do exactly that (`io::Read::read_exact`). A source such as `back[n..len]` starts in the middle of a
+    piece: the bytes handed out are not the next ones."""
+    leafs = [im for im in facts.impls if im.get("trait") == BUF and not im["self_ty"].startswith(("&mut T", "alloc::boxed::Box<T>", "buf::chain", "buf::take"))]
+    for im in leafs:
+        for it in im["items"]:
+            if it["name"] in LEAF_KNOWN or it.get("did") is None or it["did"] not in facts.by_did:
+                continue
+            b = facts.by_did[it["did"]]
+            eb = ExprBuilder(b, facts, inline=True)
+            probs = []
+            n_src = 0
+            for bi, t in b.calls():
+                if b.blocks[bi]["cleanup"]:
+                    continue
+                fn = callee(t)
+                if fn is None:
+                    continue
+                loc = (bi, len(b.blocks[bi]["stmts"]))
+                src = None
+                if fn["name"] == "copy_from_slice" and len(t["args"]) == 2:
+                    src = canon(eb.operand(t["args"][1], loc))
+                elif fn["name"] in ("copy_nonoverlapping", "copy") and len(t["args"]) == 3 and "ptr" in (fn.get("res") or fn).get("path", ""):
+                    src = canon(eb.operand(t["args"][0], loc))
+                if src is None or not any(x == ("param", 1) for x in walk(src)):
+                    continue
+                n_src += 1
+                for x in walk(src):
+                    if isinstance(x, tuple) and x and x[0] == "call" and x[1].rsplit("::", 1)[-1] in ("index", "index_mut", "get", "get_unchecked", "get_mut") and len(x[2]) == 2:
+                        rng = x[2][1]
+                        if isinstance(rng, tuple) and rng and rng[0] == "agg":
+                            nm = aggname(rng)
+                            if nm.endswith("RangeTo") or nm.endswith("RangeToInclusive") or nm.endswith("RangeFull"):
+                                continue
+                            if (nm.endswith("::Range") or nm.endswith("RangeFrom") or nm.endswith("RangeInclusive")) and canon(uncast(rng[2][0])) == ("const", 0):
+                                continue
+                            probs.append("copies from `%s`, which does not start at the beginning of a piece of the sequence" % fmt_expr(x)[:70])
+                    if isinstance(x, tuple) and x and x[0] == "call" and x[1].rsplit("::", 1)[-1] in ("add", "offset", "wrapping_add") and len(x[2]) == 2 \
+                            and canon(uncast(x[2][1])) != ("const", 0):
+                        probs.append("copies from a pointer moved into the middle of a piece (%s)" % fmt_expr(x)[:60])
+            key = "%s|override hands out the next bytes" % b.id
+            if probs:
+                res.bad(key, b.loc(), "; ".join(sorted(set(probs))[:3]))
+            elif n_src:
+                res.ok(key, b.loc(), "%d copy source(s), each a prefix of a sequence piece" % n_src, nontrivial=True)
 
 
 def check_vd_vectored(res, facts, b, slices):
